@@ -1258,6 +1258,9 @@ def run(repo, chk, tier):
     from .c12_su2 import check_su2
 
     check_su2(repo, chk)
+    from .c12_wigner import check_wigner
+
+    check_wigner(repo, chk, tier)
     from .c12_coef import check_cg_coef
 
     check_cg_coef(repo, chk, tier, cg_sq)
